@@ -292,6 +292,13 @@ func checkFile(st *subState, v *h.Verdict, step int, op Op, wantRecords int, req
 		v.Failf("file-length", "step %d (%s): FileLength field %d, file has %d octets", step, op.K, f.FileLength, len(d))
 		return false
 	}
+	if os.Getenv("VERIF_DEBUG") != "" {
+		var ls []int
+		for _, r := range f.Recs {
+			ls = append(ls, len(r.Payload))
+		}
+		fmt.Fprintf(os.Stderr, "DEBUG step %d %s: file %d octets, consumed %d, NCdr %d, payload lengths %v, request usage %d octets, own fields %d\n", step, op.K, len(d), f.Consumed, f.NCdr, ls, reqBytes, ownFieldsSize(st.supi))
+	}
 	if f.Consumed != len(d) {
 		// the record lengths do not tile the file: some record is longer than its 16-bit length field says
 		n := 0
@@ -299,8 +306,9 @@ func checkFile(st *subState, v *h.Verdict, step int, op Op, wantRecords int, req
 			n += len(u.Conts) + u.Jumbo
 		}
 		cls := op.K
-		if reqBytes >= 65535-600 {
-			// the usage of this one request alone does not fit a record (600 octets allowed for the record's own fields)
+		if reqBytes+ownFieldsSize(st.supi) > 65535 {
+			// the usage of this one request alone does not fit a record next to the record's own fields (identifiers,
+			// consumer and PDU session information: measured on the subscriber's records with their usage lists emptied)
 			cls += "/single-request>64KiB"
 		}
 		v.Failf("record-overflow/"+cls, "step %d (%s carrying %d containers): header and %d records account for %d of %d octets (a record exceeds the 65535-octet limit of its length field)", step, op.K, n, f.NCdr, f.Consumed, len(d))
@@ -416,11 +424,33 @@ func TestC03Files(t *testing.T)   { h.Run(t, "C03", "files", genRecHist, judgeRe
 
 // usageBytes: encoded size of the usage containers of one request (the same
 // conversion and encoder the product applies; the encoder is judged by C04).
+// ownFieldsSize is the largest encoded size of one of the subscriber's records without its usage list.
+func ownFieldsSize(supi string) int {
+	list, _, _ := verifapi.Records(supi)
+	max := 600
+	for _, r := range list {
+		if r == nil || r.ChargingFunctionRecord == nil {
+			continue
+		}
+		c := *r.ChargingFunctionRecord
+		c.ListOfMultipleUnitUsage = nil
+		cp := cdrType.CHFRecord{Present: r.Present, ChargingFunctionRecord: &c}
+		b, err := asn.BerMarshalWithParams(&cp, "explicit,choice")
+		if os.Getenv("VERIF_DEBUG") != "" {
+			fmt.Fprintln(os.Stderr, "DEBUG own fields:", len(b), err)
+		}
+		if err == nil && len(b) > max {
+			max = len(b)
+		}
+	}
+	return max
+}
+
 func usageBytes(res *Result) int {
-	if res == nil || res.Req == nil || len(res.Req.MultipleUnitUsage) == 0 {
+	if res == nil || res.ReqWire == nil || len(res.ReqWire.MultipleUnitUsage) == 0 {
 		return 0
 	}
-	mu := cdrConvert.MultiUnitUsageToCdr(res.Req.MultipleUnitUsage)
+	mu := cdrConvert.MultiUnitUsageToCdr(res.ReqWire.MultipleUnitUsage)
 	b, err := asn.BerMarshalWithParams(&mu, "explicit,choice")
 	if err != nil {
 		return 0
